@@ -103,6 +103,11 @@ def linearise(e, P, out, coef, w):
                         out.slacks[key] = out.slacks.get(key, 0) - coef
                     return
     # x % c and x.next_multiple_of(c) with constant c: slacks in [0, c-1] (expressed against the page slack range when c <= PAGE_MIN)
+    if e.op == "rem" and P is not None and e.args[1] == P:
+        # x % P = x - align_down(x): the same slack as the align_down of x, with the opposite sign
+        key = ("down", _nf(e.args[0], w))
+        out.slacks[key] = out.slacks.get(key, 0) + coef
+        return
     if e.op == "rem" and e.args[1].is_const() and 0 < e.args[1].val <= PAGE_MIN:
         key = ("rem", _nf(e.args[0], w), e.args[1].val)
         out.small[key] = out.small.get(key, (0, e.args[1].val - 1))
